@@ -1,6 +1,7 @@
 """C04 / C12: exhaustive exploration of allocate/free/grow histories on the real XBuffer,
 in lock step with a byte-map specification (xoverif.alloc_model)."""
 import itertools
+import signal
 
 from . import common
 from .alloc_model import ByteMap
@@ -110,8 +111,11 @@ class Sys:
             _, size, align = ev
             a = self.al if align else 1
             try:
-                with common.Watchdog(20):
+                signal.alarm(20)  # handler installed once per process (arm_watchdog); a request that never returns is a finding
+                try:
                     off = b.allocate(self.ikind(size), align=align)
+                finally:
+                    signal.alarm(0)
             except common.Watchdog.Expired:
                 bad("C12.terminates", "allocate-hangs", "allocate(%r) did not return within 20 s" % (size,))
                 return False
@@ -181,8 +185,11 @@ class Sys:
                 return False
         else:
             try:
-                with common.Watchdog(20):
+                signal.alarm(20)
+                try:
                     b.grow(self.ikind(ev[1]))
+                finally:
+                    signal.alarm(0)
             except common.Watchdog.Expired:
                 bad("C12.terminates", "grow-hangs", "")
                 return False
@@ -218,7 +225,22 @@ class Sys:
         return (snapshot(self.b), tuple((o, s) for o, s, _ in self.live), self.model_ok)
 
 
+_armed = []
+
+
+def arm_watchdog():
+    if _armed:
+        return
+    _armed.append(1)
+
+    def fire(*a):
+        raise common.Watchdog.Expired()
+
+    signal.signal(signal.SIGALRM, fire)
+
+
 def build(cfg, hist, seed, want="C12"):
+    arm_watchdog()
     s = Sys(cfg, seed)
     s.want = want
     for ev in hist:
